@@ -347,6 +347,16 @@ func runAtomic(r *runner) *engine.Outcome {
 			}
 		}
 	}
+	if backend != "mem" {
+		// (C13) whatever the writers did - a failed put cleans up after itself - the directory holding the
+		// root (it holds nothing else when the target has no sub-directory of its own) is still there
+		if _, err := os.Lstat(filepath.Dir(dir)); err != nil {
+			s.Violate("nothing-outside-root-touched", "C13|nothing-outside-root-touched|write-path-removed-parent-of-root|atomic-"+method,
+				"after %d atomic put(s) of %s (backend %s) the directory that held the bucket's root directory is gone", nWriters, target, backend)
+		} else {
+			s.Probe("root-parent-survived-write-path")
+		}
+	}
 	s.Drain()
 	out := engine.FromSim(s)
 	out.Counters = map[string]int{"crash_points": crashPoints}
